@@ -958,6 +958,11 @@ class Parent:
 
     @property
     def layout_content(self):
+        if self.token is not None:
+            # Several tokens can be shifted to the same head (lexical
+            # ambiguity). Each one is preceded by the layout that was
+            # skipped ahead of the head it was shifted from.
+            return self.root.layout_content_ahead
         return self.head.layout_content
 
     @property
